@@ -690,7 +690,7 @@ func c29DecGen(t *rapid.T) c29DecCase {
 	var c c29DecCase
 	var in []byte
 	c.Lang = rapid.SampledFrom(c29Langs).Draw(t, "lang")
-	c.Shape = rapid.SampledFrom([]string{"bytes", "unicode", "address", "bech32", "base32", "base32-chars", "mnemonic", "words"}).Draw(t, "shape")
+	c.Shape = rapid.SampledFrom([]string{"bytes", "unicode", "address", "segwit-shaped", "segwit-shaped", "bech32", "base32", "base32-chars", "mnemonic", "words"}).Draw(t, "shape")
 	switch c.Shape {
 	case "bytes":
 		in = rapid.SliceOfN(rapid.Byte(), 0, 100).Draw(t, "in")
@@ -701,6 +701,38 @@ func c29DecGen(t *rapid.T) c29DecCase {
 		prog, _ := c29Program(hash)
 		a, _ := c29ProgramToAddress(prog, c29Params(rapid.SampledFrom(c29Nets).Draw(t, "net")))
 		in = c29Mutate(t, []byte(a))
+	case "segwit-shaped":
+		// a correctly checksummed string under a network's own prefix whose payload has any shape:
+		// no groups at all, only a version, a version out of range, a program of any length
+		hrp := rapid.SampledFrom([]string{"bn", "tn", "sn", "bn", "tn", "sn", "bc", "b"}).Draw(t, "shrp")
+		var data []byte
+		switch rapid.IntRange(0, 5).Draw(t, "spayload") {
+		case 0: // nothing
+		case 1:
+			data = []byte{byte(rapid.IntRange(0, 31).Draw(t, "sver"))}
+		default:
+			ver := byte(rapid.SampledFrom([]int{0, 0, 0, 1, 16, 17, 31}).Draw(t, "sver2"))
+			prog := rapid.SliceOfN(rapid.Byte(), 0, 45).Draw(t, "sprog")
+			if rapid.Bool().Draw(t, "sstd") {
+				prog = rapid.SliceOfN(rapid.Byte(), 20, 20).Draw(t, "sprog20")
+				if rapid.Bool().Draw(t, "s32") {
+					prog = append(prog, rapid.SliceOfN(rapid.Byte(), 12, 12).Draw(t, "sprog12")...)
+				}
+			}
+			conv, err := bech32.ConvertBits(prog, 8, 5, rapid.Bool().Draw(t, "spad"))
+			if err != nil {
+				conv = nil
+			}
+			data = append([]byte{ver}, conv...)
+		}
+		str, err := bech32.Bech32Encode(hrp, data)
+		if err != nil {
+			str = hrp + "1"
+		}
+		in = []byte(str)
+		if rapid.IntRange(0, 3).Draw(t, "smut") == 0 {
+			in = c29Mutate(t, in)
+		}
 	case "bech32":
 		bc := c29BechGen(t)
 		hrp, _ := hex.DecodeString(bc.Hrp)
